@@ -79,6 +79,7 @@ static FILE		*vh_out = NULL ;
 static long		vh_cases_run = 0 ;
 static int		vh_nsamples = 0 ;
 static int		vh_case_secs = 60 ;		/* wall watchdog per case */
+static int		vh_nostride_next = 0 ;	/* set before vh_case: this case is exempt from --stride sampling (always part of memcheck runs) */
 static int		vh_stride = 1 ;			/* --stride K: run every K-th case of this shard only (memcheck runs) */
 static long		vh_vg_errors = 0 ;
 static int		vh_slow = 1 ;			/* watchdog multiplier: 40 under valgrind */
@@ -270,9 +271,10 @@ static void vh_vg_poll (void)
 ** process must run it.  The PRNG is re-seeded from (seed, monitor, index) so a case replays alone. */
 static int vh_case (const char *fmt, ...)
 {	long idx = vh_next_idx++ ; va_list ap ;
-	if (vh_only >= 0) { if (idx != vh_only) return 0 ; }
-	else if (idx < vh_from || (idx % vh_nshards) != vh_shard) return 0 ;
-	else if (vh_stride > 1 && ((idx / vh_nshards) % vh_stride) != 0) return 0 ;
+	if (vh_only >= 0) { if (idx != vh_only) { vh_nostride_next = 0 ; return 0 ; } }
+	else if (idx < vh_from || (idx % vh_nshards) != vh_shard) { vh_nostride_next = 0 ; return 0 ; }
+	else if (vh_stride > 1 && !vh_nostride_next && ((idx / vh_nshards) % vh_stride) != 0) { vh_nostride_next = 0 ; return 0 ; }
+	vh_nostride_next = 0 ;
 	vh_vg_poll () ;
 	vh_case_idx = idx ;
 	va_start (ap, fmt) ; vsnprintf (vh_case_desc, sizeof (vh_case_desc), fmt, ap) ; va_end (ap) ;
